@@ -50,11 +50,17 @@ structure Guards where
   cycleHit : Nat → Nat → Bool        -- exec.c   ++cycle == 100
   vmExpired : Nat → Nat → Bool       -- exec.c   elapsed_time > context->timeout
   blockExpired : Nat → Nat → Bool    -- scanner.c elapsed > scanner->timeout
+  sizeErr : Nat → Nat → Bool         -- re.c     _yr_re_emit: site index → jump distance → TOO_LARGE
 
 def int64Max : Nat := 9223372036854775807
 
 /-- documented maximum identifier length (docs/writingrules.rst) -/
 def specIdentMax : Nat := 128
+
+/-- sites of `_yr_re_emit` in the order of `Gen.reSizeGuards`: 0 plus (backward), 1 star (backward jump), 2 star (forward split),
+    3 alt split, 4 alt jump, 5 range split. A backward offset is stored as `-distance` and may reach INT16_MIN. -/
+def sizeBackward (i : Nat) : Bool := decide (i < 2)
+def sizeBound (i : Nat) : Nat := if sizeBackward i then 32768 else 32767
 
 def Guards.gen : Guards where
   capReached := matchCapCmp.eval
@@ -72,6 +78,9 @@ def Guards.gen : Guards where
   cycleHit := vmCycleCmp.eval
   vmExpired := vmTimeoutCmp.eval
   blockExpired := blockTimeoutCmp.eval
+  sizeErr := fun i d => match reSizeGuards[i]? with
+    | some g => g.cmp.eval d g.bound
+    | none => true
 
 def Guards.spec : Guards where
   capReached := fun c M => decide (c ≥ M)
@@ -89,6 +98,7 @@ def Guards.spec : Guards where
   cycleHit := fun c N => decide (c ≥ N)
   vmExpired := fun e t => decide (e > t)
   blockExpired := fun e t => decide (e > t)
+  sizeErr := fun i d => decide (d > sizeBound i)
 
 structure Guards.Sound (G : Guards) : Prop where
   cap : ∀ c M, c ≤ M → (G.capReached c M = true ↔ c = M)
@@ -106,6 +116,7 @@ structure Guards.Sound (G : Guards) : Prop where
   cycle : ∀ c N, c < N → (G.cycleHit (c + 1) N = true ↔ c + 1 = N)
   vmExp : ∀ e t, G.vmExpired e t = true ↔ e > t
   blockExp : ∀ e t, G.blockExpired e t = true ↔ e > t
+  size : ∀ i d, i < 6 → (G.sizeErr i d = true ↔ d > sizeBound i)
 
 variable (G : Guards)
 
@@ -298,26 +309,26 @@ def emit (MAX : Nat) : Re → Emit → Except Err Emit
       let start := c.size
       let c1 ← emit MAX a c
       -- if (instruction_ref.offset - bookmark_1 < INT16_MIN)
-      if c1.size - start > int16MinAbs then .error .reTooLarge
+      if G.sizeErr 0 (c1.size - start) then .error .reTooLarge
       else emitSplit G MAX c1
   | .star a, c => do
       let start := c.size
       let c1 ← emitSplit G MAX c
       let c2 ← emit MAX a c1
-      if c2.size - start > int16MinAbs then .error .reTooLarge
+      if G.sizeErr 1 (c2.size - start) then .error .reTooLarge
       else
         let c3 : Emit := { c2 with size := c2.size + 3 }      -- jmp
-        if c3.size - start > int16Max then .error .reTooLarge else .ok c3
+        if G.sizeErr 2 (c3.size - start) then .error .reTooLarge else .ok c3
   | .alt a b, c => do
       let start := c.size
       let c1 ← emitSplit G MAX c
       let c2 ← emit MAX a c1
       let jmpAt := c2.size
       let c3 : Emit := { c2 with size := c2.size + 3 }        -- jmp
-      if c3.size - start > int16Max then .error .reTooLarge
+      if G.sizeErr 3 (c3.size - start) then .error .reTooLarge
       else do
         let c4 ← emit MAX b c3
-        if c4.size - jmpAt > int16Max then .error .reTooLarge else .ok c4
+        if G.sizeErr 4 (c4.size - jmpAt) then .error .reTooLarge else .ok c4
   | .range lo hi a, c =>
       -- emit_prolog = start > 0; emit_repeat = end > start + 1 || end > 2;
       -- emit_split = end > start; emit_epilog = end > start || end > 1
@@ -327,7 +338,7 @@ def emit (MAX : Nat) : Re → Emit → Except Err Emit
           .ok { c22 with size := c22.size + repeatArgsSize }) c1 >>= fun c2 =>
       whenE (hi > lo) (emitSplit G MAX) c2 >>= fun c3 =>
       whenE (hi > lo ∨ hi > 1) (emit MAX a) c3 >>= fun c4 =>
-      if hi > lo ∧ c4.size - c2.size > int16Max then .error .reTooLarge else .ok c4
+      if hi > lo ∧ G.sizeErr 5 (c4.size - c2.size) = true then .error .reTooLarge else .ok c4
 
 /-- `yr_re_ast_emit_code`: fresh context, the expression, then RE_OPCODE_MATCH (1 byte). -/
 def emitCode (MAX : Nat) (r : Re) : Except Err Emit :=
@@ -347,6 +358,22 @@ def splits : Re → Nat
       (if hi > lo + 1 ∨ hi > 2 then splits a else 0) +
       (if hi > lo then 1 else 0) +
       (if hi > lo ∨ hi > 1 then splits a else 0)
+
+/-- the value an `int16_t` holds after `jmp_offset = (int16_t) x` -/
+def wrap16 (x : Int) : Int := let r := x % 65536; if r ≥ 32768 then r - 65536 else r
+
+/-- the offset `_yr_re_emit` stores for site `i` when the real distance is `d` -/
+def storedOffset (i d : Nat) : Int := wrap16 (if sizeBackward i then -(d : Int) else (d : Int))
+
+/-! ## 7b. Start of a scan (scanner.c `_yr_scanner_clean_matches`) -/
+
+/-- `YR_BITMASK_SIZE(n)` 64-bit words -/
+def bitmaskWords (n : Nat) : Nat := n / 64 + 1
+
+/-- `memset(strings_temp_disabled, 0, sizeof(YR_BITMASK) * YR_BITMASK_SIZE(count))`: the mute bits of the first
+    `64 * words` strings are cleared, the rest keep their value from the previous scan -/
+def cleanDisabled (count : Nat) (d : Nat → Bool) : Nat → Bool :=
+  fun i => if i < 64 * bitmaskWords count then false else d i
 
 /-! ## 8. Fiber pool (re.c:1219 `_yr_re_fiber_create`, `_yr_re_fiber_kill`) -/
 
